@@ -125,6 +125,73 @@ func checkC20(p *Prog, r *Report) {
 	/* -print-ctrl-i reports a source it cannot convert: the generator hands
 	back the conversion's own error, and never an empty success in its
 	place (C17's rule, under this property's start-up clause). */
+	/* A damaged cache is reported, not a crash: reading the cache never
+	indexes what it parsed (the archive's members, the PEM blocks) at a
+	fixed position without having looked at how many there are. */
+	{
+		ruI := r.Rule("cache-parse-total", "in lib/sstls no slice obtained from parsed data is indexed at a constant position without a dominating test of its length")
+		nI := 0
+		for _, fn := range p.Funcs() {
+			if nil == fn.Pkg || !strings.HasSuffix(fn.Pkg.Pkg.Path(), "/"+sstlsPkg) {
+				continue
+			}
+			eachInstr(fn, func(i ssa.Instruction) {
+				ia, ok := i.(*ssa.IndexAddr)
+				if !ok {
+					return
+				}
+				if _, isSlice := ia.X.Type().Underlying().(*types.Slice); !isSlice {
+					return
+				}
+				if _, isC := constInt(ia.Index); !isC {
+					return
+				}
+				/* tls.X509KeyPair succeeds only with at least one certificate. */
+				if fv, base := loadedField(stripConv(resolveCell(ia.X), false)); nil != fv && "Certificate" == fv.Name() && nil != base && typeIs(base.Type(), "crypto/tls", "Certificate") {
+					return
+				}
+				/* Slices made here with a known length are fine. */
+				switch x := stripConv(resolveCell(ia.X), false).(type) {
+				case *ssa.Slice:
+					if _, isAl := x.X.(*ssa.Alloc); isAl {
+						return
+					}
+				case *ssa.MakeSlice:
+					return
+				}
+				nI++
+				c := fmt.Sprintf("%s:index#%d", fnName(fn), nI)
+				tested := false
+				for _, b := range fn.Blocks {
+					ifi := blockIf(b)
+					if nil == ifi {
+						continue
+					}
+					if !operandsReach(ifi.Cond, func(v ssa.Value) bool {
+						lc, isCall := v.(*ssa.Call)
+						if !isCall {
+							return false
+						}
+						bi, isB := lc.Common().Value.(*ssa.Builtin)
+						return isB && "len" == bi.Name() && 1 == len(lc.Common().Args) && resolveCell(lc.Common().Args[0]) == resolveCell(ia.X)
+					}) {
+						continue
+					}
+					if edgeDominates(ifi, 0, i) || edgeDominates(ifi, 1, i) {
+						tested = true
+					}
+				}
+				if tested {
+					ruI.OK(c, posOf(i), "below a test of the slice's length")
+				} else {
+					ruI.Bad(c, posOf(i), "a slice which comes from parsed data is indexed at a fixed position without its length having been tested: a cache file which is empty, cut short or not an archive makes the program panic instead of reporting it")
+				}
+			})
+		}
+		if 0 == nI {
+			ruI.OK("lib/sstls:no-fixed-index", token.NoPos, "no slice is indexed at a constant position")
+		}
+	}
 	checkSourcesConverted(p, r.Rule("missing-source-reported", "a Ctrl+I source which does not exist fails the conversion (C17's rule): the sources named are converted as named, not expanded as patterns first"))
 	checkCtrlIGenerator(p, r, r.Rule("ctrl-i-generator", "main's Ctrl+I generator returns Converter.From's payload and error and nothing else"))
 	/* A damaged certificate cache is a start-up failure to be reported, not
@@ -1060,6 +1127,55 @@ func checkC20Restore(p *Prog, r *Report, ru *Rule) {
 				}
 			}
 		})
+	}
+	/* The descriptor stays valid for as long as it is used: the *os.File is
+	kept (in the shell, or by the cleanup) — an os.File nothing refers to
+	is closed by its finalizer at the next garbage collection, and
+	Restore, GetSize and the terminal library then work on a closed (or
+	re-used) descriptor number. */
+	{
+		fileV := valueOrExtract(open, 0)
+		kept := false
+		seen := map[ssa.Value]bool{}
+		var follow func(v ssa.Value, depth int)
+		follow = func(v ssa.Value, depth int) {
+			if nil == v || seen[v] || depth > 6 || nil == v.Referrers() {
+				return
+			}
+			seen[v] = true
+			for _, ref := range *v.Referrers() {
+				switch x := ref.(type) {
+				case *ssa.Store:
+					if x.Val != v {
+						continue
+					}
+					if _, isFA := x.Addr.(*ssa.FieldAddr); isFA {
+						kept = true
+					} else if al, isAl := resolveFree(x.Addr).(*ssa.Alloc); isAl {
+						/* A local cell: kept if a closure which outlives New
+						captures it, or if what is loaded from it is kept. */
+						for _, r2 := range *al.Referrers() {
+							switch y := r2.(type) {
+							case *ssa.MakeClosure:
+								kept = true
+							case *ssa.UnOp:
+								follow(y, depth+1)
+							}
+						}
+					}
+				case *ssa.MakeClosure:
+					kept = true
+				case *ssa.Phi, *ssa.MakeInterface, *ssa.ChangeType:
+					follow(x.(ssa.Value), depth+1)
+				}
+			}
+		}
+		follow(fileV, 0)
+		if kept {
+			ru.OK(fnName(onew)+":tty-file-kept", posOf(open), "the opened TTY's *os.File is kept beyond New")
+		} else {
+			ru.Bad(fnName(onew)+":tty-file-kept", posOf(open), "nothing keeps the *os.File of the TTY once New has returned (only its descriptor number is kept): the garbage collector's finalizer closes it, and restoring the terminal at exit then fails silently")
+		}
 	}
 	/* Modes switched on through the terminal library while setting up (a
 	Set…Mode(true) which writes an escape sequence: bracketed paste) are
